@@ -48,6 +48,28 @@ pub fn run(ctx: &Ctx) -> Outcome {
             let f = find_from(re, t, 0);
             let f2 = guard(|| Ok(re.find(t)?.map(|m| span_of(&m))));
             let cp = guard(|| Ok(re.captures(t)?.map(|c| caps_of(&c))));
+            // the accessors of one Match / Captures tell one story: start/end = range, as_str = the slice
+            let acc_bad = guard(|| {
+                let mut bad: Option<String> = None;
+                if let Some(m) = re.find(t)? {
+                    if m.range() != (m.start()..m.end()) || t.get(m.range()) != Some(m.as_str()) {
+                        bad = Some(format!("Match: start {} end {} range {:?} as_str {:?}", m.start(), m.end(), m.range(), m.as_str()));
+                    }
+                }
+                if let Some(c) = re.captures(t)? {
+                    for i in 0..c.len() {
+                        if let Some(m) = c.get(i) {
+                            if m.range() != (m.start()..m.end()) || t.get(m.range()) != Some(m.as_str()) {
+                                bad = Some(format!("Captures::get({}): start {} end {} range {:?} as_str {:?}", i, m.start(), m.end(), m.range(), m.as_str()));
+                            }
+                        }
+                    }
+                }
+                Ok(bad)
+            });
+            if let Got::Val(Some(what)) = acc_bad {
+                acc.violate(Violation::new("C09", "coherence", c.pattern, t, 0, "Match accessors", "range() = start()..end() and as_str() = the text in that range".into(), what));
+            }
             if [&f, &f2].iter().any(|g| matches!(g, Got::StepCap)) || matches!(im, Got::StepCap) || matches!(cp, Got::StepCap) {
                 acc.inconclusive += 1;
                 continue;
